@@ -26,13 +26,15 @@ from ..common import Run, close, f2h, h2f, run_driver, import_repo
 from .. import pyside, translate
 from .. import neutron_common as nc
 
-RULE = ("exhaustive: every atom with neutron data × 5 wavelengths × 4 entry points, all its ions, "
-        "every node/midpoint/outside of the energy-dependent tables; random compounds (85% flat with 1..6 "
-        "distinct atoms, 15% nested to depth 3 with repeated atoms; (elements, isotopes, ions, energy-dependent, 8% with an atom without data), "
-        "density or natural_density log-uniform in [1e-3, 25], wavelength log-uniform in [0.05, 50] "
-        "plus table nodes/midpoints/ends, as wavelength=, energy=, default or a vector of 1..5, 20% of the scalar cases followed by the same compound 2e-5 further; a case is "
-        "non-trivial when it has >= 2 atoms, an energy-dependent atom, an ion, or a vector; "
-        "distinct by canonical input")
+RULE = ("exhaustive: every atom with neutron data x 5 wavelengths x 4 entry points, all its ions, every "
+        "node/midpoint/outside of the energy-dependent tables; random compounds: 85% flat with 1..6 "
+        "distinct atoms, 15% nested to depth 3 with repeated atoms, over elements, isotopes, ions, "
+        "energy-dependent atoms and atoms whose incoherent cross section clips at 0, 8% with an atom "
+        "without data; density or natural_density log-uniform in [1e-3, 25]; wavelength log-uniform in "
+        "[0.05, 50] plus table nodes/midpoints/ends, given as wavelength=, energy=, by default or as a "
+        "vector of 1..5; 20% of the scalar cases are followed by the same compound 2e-5 further (second "
+        "call); a case is non-trivial when it has >= 2 atoms, an energy-dependent atom, an ion, or a "
+        "vector; distinct by canonical input")
 
 WAVELENGTHS = [1.798, 0.05, 50.0, 0.7, 4.75]
 
